@@ -22,7 +22,7 @@ RULE = ("exhaustive product: every grid configuration with a fast-validation "
 EXPLANATION = ("differential oracle between two implementations inside the "
                "code base plus a reference semantics for compounds (first "
                "accepting alternative in the documented evaluation order)")
-BOUNDS = {"quick": "full grid x full lattice", "thorough": "same + Tuple "
+BOUNDS = {"quick": "full grid x full lattice", "thorough": "same + every ordered triple of 13 members as Either + Tuple "
           "member and Event paths for every single configuration"}
 ASSUMPTIONS = ["lattice values only", "compound evaluation order as "
                "documented: alternatives with a fast descriptor in "
@@ -218,11 +218,15 @@ def relevant(cname):
 
 
 def shards(tier):
+    if tier == "thorough":
+        L.add_triples()
     n = 32
     return [{"chunk": i, "of": n} for i in range(n)]
 
 
 def run_shard(ctx, shard, tier):
+    if tier == "thorough":
+        L.add_triples()
     names = [n for n in L.NAMES if relevant(n)]
     names = names[shard["chunk"]::shard["of"]]
     for cname in names:
